@@ -2,6 +2,7 @@ package guards
 
 import (
 	"fmt"
+	"regexp"
 	"go/token"
 	"go/types"
 	"sort"
@@ -614,6 +615,8 @@ func (e *Engine) classify(f *ssa.Function, d CtrlDep, depth int) []string {
 	return []string{"OTHER[" + cond.String() + "]"}
 }
 
+var validityLit = regexp.MustCompile(`^PRED\[(field\.\(\*Element\)\.Equal|isOnCurve)#0 (==|!=) (0|1|true|false)\]$`)
+
 func isErr(t types.Type) bool {
 	return types.Identical(t, types.Universe.Lookup("error").Type())
 }
@@ -634,15 +637,28 @@ func (e *Engine) errorClasses(f *ssa.Function, depth int) []string {
 		fwd  *ssa.Function
 	}
 	var sites []site
+	// the conditions under which a return site is reached; for one incoming path of a merging return block
+	// (named results, single return) these are the conditions of the block the path comes from, plus the
+	// branch it takes there
+	ctrl := func(rs effects.ReturnSite) []CtrlDep {
+		if rs.Pred == nil {
+			return cdg.Closure(rs.Instr.Block())
+		}
+		lits := cdg.Closure(rs.Pred)
+		if ifi, ok := rs.Pred.Instrs[len(rs.Pred.Instrs)-1].(*ssa.If); ok && rs.Pred.Succs[0] != rs.Pred.Succs[1] {
+			lits = append(lits, CtrlDep{If: ifi, True: rs.Pred.Succs[0] == rs.To})
+		}
+		return lits
+	}
 	for _, rs := range fi.Sum.Returns {
 		if rs.Forwarded != nil && depth < 6 {
-			sites = append(sites, site{lits: cdg.Closure(rs.Instr.Block()), fwd: rs.Forwarded})
+			sites = append(sites, site{lits: ctrl(rs), fwd: rs.Forwarded})
 			continue
 		}
 		if rs.Err != 1 {
 			continue
 		}
-		sites = append(sites, site{lits: cdg.Closure(rs.Instr.Block())})
+		sites = append(sites, site{lits: ctrl(rs)})
 	}
 	// iterate: a site whose remaining condition is a single literal makes the
 	// negation of that literal redundant in the other sites
@@ -704,6 +720,38 @@ func (e *Engine) GAccept(fname string, want []string) report.Obligation {
 	}
 	o.Pos = e.P.Rel(f.Pos())
 	got := e.errorClasses(f, 0)
+	// "VALID" in the specification stands for the validity decision of a coordinate decoder, however it is
+	// written: any rejection that depends only on results of field equality tests (in the decoder, or in a
+	// predicate private to it). What those tests say is decided by the accept-set rule of the value domain (E9);
+	// here only the structure matters: nothing else (a length, a limb, a flag) takes part in the decision.
+	wantsValid := false
+	for _, w := range want {
+		if w == "VALID" {
+			wantsValid = true
+		}
+	}
+	if wantsValid {
+		var g2 []string
+		seenValid := false
+		for _, g := range got {
+			all := true
+			for _, lit := range strings.Split(g, " ∧ ") {
+				if !validityLit.MatchString(lit) {
+					all = false
+				}
+			}
+			if all {
+				if !seenValid {
+					g2 = append(g2, "VALID")
+					seenValid = true
+				}
+				continue
+			}
+			g2 = append(g2, g)
+		}
+		sort.Strings(g2)
+		got = g2
+	}
 	// entries starting with "?" are optional: allowed, not required
 	gotSet := map[string]bool{}
 	for _, g := range got {
